@@ -32,10 +32,16 @@ TranslateError naming file, line and construct):
                             spl(a, b, grid=False)               -> spline_call spline spl a b   (pointwise evaluation)
                             table[name]  | table[name] = column -> fget (KeyError = None), fset
 
+  all functions            NAME(args) with NAME another module-level function whose body is straight-line ([imports] (local = e)*
+                            return e, no decorators / defaults / keywords): INLINED (translate_core.inline_call) - arguments first,
+                            body in an environment holding only its parameters, names through ITS OWN imports
+                            dict()  ==  {}  ;  variables.split(',') used in place (e.g. as the loop iterable)
+
 ONLY PATTERN-CHECKED (exact text after ast.unparse; no semantics in Coq) - glue:
   * the import statements at the top of each function;  `variables = variables.split(',')` as the first use of variables;
-  * in load_data: `df.columns = [float(x) for x in df.columns]`, `df.index = [float(x) for x in df.index]` (labels become
-    floats; the model's tables carry float labels) and the keyword arguments of read_table;
+  * in load_data: `df.columns = [float(x) for x in df.columns]` or `df.columns = list(map(float, df.columns))` (the same list
+    when list / map / float are not rebound in the module - checked), likewise for df.index (labels become floats; the
+    model's tables carry float labels) and the keyword arguments of read_table;
   * the click decorators are READ (option strings -> parameter name by click's rule, default, type, flag) and the
     defaults of --t-col / --p-col are emitted as Gallina strings; click itself is trusted;
   * `print(table.to_string(header=not hide_header[, index=False]))` as the last statement: the result IS `table`;
